@@ -54,6 +54,19 @@ def run(ctx):
                 if sum(l - cfg["W"] + 1 for l in cfg["lens"]) < 12 * cfg["K"]:
                     cfg["lens"].append(cfg["W"] + 16 * cfg["K"])
             cfgs.append(cfg)
+        # scripted every run (not left to the draw): (1) two one-series joint calls with a switching cost other than
+        # the default — they must equal the single-series front end; (2) two joint calls with the same number of series,
+        # the same window and the same TOTAL number of windows but a different split
+        for j in range(2):
+            c1 = tu.gen_config(ctx.rng, joint=True)
+            c1.update({"lens": [c1["W"] + 40 + 7 * j], "beta": [5.0, 25.0][j], "limit": 3})
+            cfgs.append(c1)
+        c2 = tu.gen_config(ctx.rng, joint=True)
+        c2.update({"beta": 5.0, "limit": 2, "K": 2})
+        c2["lens"] = [c2["W"] + 12, c2["W"] + 33]
+        cfgs.append(c2)
+        cfgs.append(dict(c2, lens=[c2["W"] + 33, c2["W"] + 12], data_seed=c2["data_seed"] + 1))
+        cfgs.append(dict(c2, lens=[c2["W"] + 22, c2["W"] + 23], data_seed=c2["data_seed"] + 2))
     outs = ctx.driver.run([f"mask {show_list(t)}" for t in tuples])
     for t, out in zip(tuples, outs):
         got = dp.label_switching_cost_template(list(t))
